@@ -113,6 +113,9 @@ def check_request(s, rec, seen_bt):
     else:
         want = None
     got = [tuple(v[0]) for v in d["varbinds"]]
+    if want is None and rec.get("expect_oid") is not None and got != [tuple(rec["expect_oid"])]:
+        return (f"the walk's follow-up request names {got[:1]} instead of {tuple(rec['expect_oid'])}, the OID the agent "
+                "returned last (nothing else may be asked for)")
     if want is not None and got != want:
         return f"OIDs {got[:4]} instead of {want[:4]}"
     if any(v[1] != 0x05 or v[2] != b"" for v in d["varbinds"]):
@@ -183,6 +186,15 @@ def run(chk, model_ok=True):
                 owners.append(s.label)
         if len(samples) < 4 and ss and ss[0].events:
             samples.append({"session": ss[0].label, "request": ss[0].line()[:300]})
+    # the real clients in random configurations (engine id given / None / b"", lost discovery probes): the credentials
+    # every request carries (user name, engine id, boots / time, flags) as the property lists them
+    from props import c13
+    n_cli = 0
+    for key, script, r, why in c13.client_cases(rng, 12 if quick else 300):
+        n_cli += 1
+        if why and any(w in why for w in ("carries user", "engine id", "boots/time", "security flags", "failed with")):
+            fail(f"{key}: {why}", f"# client {key}")
+    chk.coverage["client_runs"] = n_cli
     if model_ok and lines:
         out, rc, err = common.run_model(lines)
         nd = 0
